@@ -104,7 +104,9 @@ def rand_like(rng, y, cplx=None):
 
 class Case:
     def __init__(self, name, make, affine=False, freeze=None, dirs=None, smooth_tol=2e-6, seed_kinds=None,
-                 out_pattern=None, notes=""):
+                 out_pattern=None, notes="", clip=None, hist_scale=0.3):
+        self.clip = clip              # (lo, hi) admissible range of the (first) input, used by history generators
+        self.hist_scale = hist_scale  # relative size of the input changes in histories
         self.name = name
         self.make = make
         self.affine = affine
@@ -520,7 +522,7 @@ def gen_overhang(rng):
         s = pym.Signal("x", x.copy())
         return pym.OverhangFilter([s], domain=dom, **kw), [s]
 
-    return Case(f"OverhangFilter.{dn}.dir{d}.ns{ns}", make, affine=False, smooth_tol=5e-5)
+    return Case(f"OverhangFilter.{dn}.dir{d}.ns{ns}", make, affine=False, smooth_tol=5e-5, clip=(0.0, 1.0))
 
 
 MATH_EXPRS = [
@@ -612,7 +614,7 @@ def gen_aggregation(rng):
         kw["active_set"] = dict(lower_rel=float(rng.choice([0.0, 0.1])), upper_rel=float(rng.choice([1.0, 0.9])),
                                 lower_amt=float(rng.choice([0.0, 0.2])), upper_amt=float(rng.choice([1.0, 0.85])))
     par = float(rng.choice([-8, -3, -1, 2, 4, 10]))
-    if "active_set" in kw and not pym.AggActiveSet(**kw["active_set"])(x).any():
+    if "active_set" in kw and not np.ones(n, dtype=bool)[pym.AggActiveSet(**kw["active_set"])(x)].any():
         del kw["active_set"]  # a band that removes every entry leaves nothing to aggregate (inadmissible)
 
     def make():
@@ -638,7 +640,7 @@ def gen_aggregation(rng):
             m.active_set = lambda xx, sel=sel: sel
 
     return Case(f"Aggregation.{kind}.n{n}.par{par}.{'sc' if 'scaling' in kw else ''}{'as' if 'active_set' in kw else ''}",
-                make, affine=False, freeze=freeze, smooth_tol=2e-6)
+                make, affine=False, freeze=freeze, smooth_tol=2e-6, clip=(0.05, 10.0))
 
 
 def gen_scaling(rng):
@@ -821,7 +823,7 @@ def gen_eigensolve(rng):
         return pym.EigenSolve(sigs), sigs
 
     return Case(f"EigenSolve.dense.{cls}.n{n}.{'c' if cplx else 'r'}.{'gen' if gen else 'std'}", make, affine=False,
-                dirs=dirs, smooth_tol=2e-5)
+                dirs=dirs, smooth_tol=2e-5, hist_scale=0.02)
 
 
 GENERATORS = {
@@ -831,3 +833,24 @@ GENERATORS = {
     "linsolve": gen_linsolve, "inverse": gen_inverse, "soe": gen_soe, "staticcond": gen_staticcond,
     "eigensolve": gen_eigensolve,
 }
+
+
+class NetAdapter:
+    """a Network seen as one module with explicitly chosen output signals (Network.sig_out is an unordered set
+    of ALL internal outputs)"""
+    def __init__(self, net, outs):
+        self.net = net
+        self.sig_out = list(outs)
+        self.sig_in = list(net.sig_in)
+
+    def response(self):
+        self.net.response()
+        return self
+
+    def sensitivity(self):
+        self.net.sensitivity()
+        return self
+
+    def reset(self):
+        self.net.reset()
+        return self
